@@ -439,6 +439,11 @@ impl Worterbuch {
     }
 
     pub async fn publish(&mut self, key: Key, value: Value) -> WorterbuchResult<()> {
+        if key == SYSTEM_TOPIC_ROOT || key.starts_with(SYSTEM_TOPIC_ROOT_PREFIX) {
+            // only the server itself produces events on $SYS keys, and it does so by setting them
+            return Err(WorterbuchError::ReadOnlyKey(key));
+        }
+
         let path: Vec<RegularKeySegment> = parse_segments(&key)?;
 
         self.notify_subscribers(&path, &key, &value, true, false)
